@@ -29,6 +29,8 @@ def main():
         meta = json.load(open(os.path.join(mdir, "meta.json")))
         if only and meta["id"] not in only:
             continue
+        if meta.get("retired"):
+            continue
         target = meta["breaks_property"]
         scratch = tempfile.mkdtemp(prefix="verif-matrix-", dir="/tmp")
         try:
@@ -53,7 +55,9 @@ def main():
     rows = []
     for mdir in sorted(glob.glob(os.path.join(ROOT, "seeded", "*"))):
         meta = json.load(open(os.path.join(mdir, "meta.json")))
-        if meta["id"] in store:
+        if meta.get("retired"):
+            rows.append((meta, {"-": [9, 0.0, meta["retired"]]}))
+        elif meta["id"] in store:
             rows.append((meta, store[meta["id"]]))
     with open(os.path.join(ROOT, "SENSITIVITY.md"), "w") as f:
         f.write("# Sensitivity: seeded changes vs. checks\n\n")
@@ -64,10 +68,13 @@ def main():
                 "(`tools/matrix.py`; exit 1 = caught, 0 = missed, 2 = harness error).\n\n")
         f.write("| seeded change | breaks | change | caught by | missed by | first violation of the target check (or note) |\n|---|---|---|---|---|---|\n")
         for meta, res in rows:
+            if meta.get("retired"):
+                f.write(f"| {meta['id']} | {meta['breaks_property']} | {meta['change']} | (retired) | - | {meta['retired'].replace('|', '/')} |\n")
+                continue
             caught = [p for p, r in res.items() if r[0] == 1]
             missed = [p for p, r in res.items() if r[0] == 0]
             err = [p for p, r in res.items() if r[0] not in (0, 1)]
-            t = res.get(meta["breaks_property"])
+            t = res.get(meta["breaks_property"]) or res.get("-")
             f.write(f"| {meta['id']} | {meta['breaks_property']} | {meta['change']} | {' '.join(caught) or '-'} | "
                     f"{' '.join(missed) or '-'}{(' (harness error: ' + ' '.join(err) + ')') if err else ''} | "
                     f"{(meta.get('not_caught_note') or (t[2] if t else '')).replace('|', '/')} ({t[1]:.0f}s) |\n")
